@@ -148,6 +148,10 @@ def main(pid):
     docs = list(gendocs.pairs())
     rnd.shuffle(docs)
     docs = docs[: (6000 if thorough else 1500)] + list(gendocs.random_docs(vlib.seed(), 6000 if thorough else 1500, kmin=3, kmax=9))
+    # every example citation of reporters-db next to its neighbours (same reporter, different
+    # volume / page, incl. pages written with separators): distinct documents must not share a resource
+    ex = vlib.impl_run("drv_extract", "db_examples", {})["reporters"]
+    docs += [f"{a}; {b}; {c}. Id. at 3." for a, b, c in zip(ex, ex[1:], ex[2:])][:: (1 if thorough else 2)]
     docs = [d for d in dict.fromkeys(docs) if d.strip()]
     dobs = vlib.impl_map("drv_resolve", "run_docs", docs)
     dtr = [{"p": [0] * len(o["cites"]), "cs": o["cites"], "g": o["groups"] or [], "r": o["raised"] or "",
